@@ -239,8 +239,11 @@ where
             cost: 0.0,
         });
 
-        let mut rng = rand::rng();
-        let goal_state = pd.goal.sample_goal(&mut rng).unwrap();
+        // With a seed configured the goal root comes from the planner's own generator.
+        let goal_state = match self.rng.as_mut() {
+            Some(rng) => pd.goal.sample_goal(&mut **rng).unwrap(),
+            None => pd.goal.sample_goal(&mut rand::rng()).unwrap(),
+        };
         let goal_node = Node {
             state: goal_state,
             parent_index: None,
@@ -258,11 +261,6 @@ where
     fn solve(&mut self, timeout: Duration) -> Result<Path<S>, PlanningError> {
         #[cfg(oxmpl_verif)]
         use crate::verif::Instant;
-        let mut rng = self
-            .rng
-            .take()
-            .unwrap_or_else(|| Box::new(StdRng::from_os_rng()));
-        let start_time = Instant::now();
         let pd = self
             .problem_def
             .as_ref()
@@ -282,10 +280,22 @@ where
             return Err(PlanningError::NoSolutionFound);
         }
 
+        // A configured seed must keep determining every later call: the generator is only taken
+        // once the planner is known to be usable and is handed back on every return path.
+        let seeded = self.rng.is_some();
+        let mut rng = self
+            .rng
+            .take()
+            .unwrap_or_else(|| Box::new(StdRng::from_os_rng()));
+        let start_time = Instant::now();
+
         // Main loop
         loop {
             // 1. Check for timeout
             if start_time.elapsed() > timeout {
+                if seeded {
+                    self.rng = Some(rng);
+                }
                 return Err(PlanningError::Timeout);
             }
 
@@ -322,6 +332,9 @@ where
                 // If growing the start tree, check if the new node is already in the goal.
                 if is_growing_start_tree && goal.is_satisfied(q_new) {
                     println!("Solution found by start tree reaching goal directly.");
+                    if seeded {
+                        self.rng = Some(rng);
+                    }
                     return Ok(self.reconstruct_path(&self.start_tree, new_node_idx_a));
                 }
 
@@ -360,6 +373,9 @@ where
                         // connection point) to the start path.
                         start_path.extend(goal_path.into_iter().skip(1));
 
+                        if seeded {
+                            self.rng = Some(rng);
+                        }
                         return Ok(Path(start_path));
                     }
                 }
